@@ -317,7 +317,12 @@ func CheckHelperCalls(funcs []*ssa.Function, requires map[*ssa.Function]map[stri
 		out = out[:0]
 		for _, fn := range funcs {
 			var ls map[ssa.Instruction]LockState
-			for _, s := range Sites(fn, false) {
+			for _, in := range OwnInstrs(fn) {
+				ci, isCall := in.(ssa.CallInstruction)
+				if !isCall {
+					continue
+				}
+				s := ResolveCall(ci)
 				if s.Callee == nil || len(requires[s.Callee]) == 0 || s.Recv() == nil {
 					continue
 				}
